@@ -107,22 +107,38 @@ def leaves(lw, path, t, acc):
         return
     if t.is_record():
         rec = t.rec
-        if rec.get('tagUsed') == 'union':
-            # first named field only
-            for f in rec.get('inner', []):
-                if f.get('kind') == 'FieldDecl' and f.get('name'):
-                    leaves(lw, path + '.' + f['name'], lw.ctype(f['type']), acc)
-                    return
+        if rec is None:
             return
-        for i, b in enumerate(rec.get('bases', []) or []):
-            leaves(lw, path + ('.qx_base%d' % i if i else '.qx_base'), lw.ctype(b['type']), acc)
-        for f in rec.get('inner', []):
-            if f.get('kind') == 'FieldDecl' and f.get('name'):
-                leaves(lw, path + '.' + f['name'], lw.ctype(f['type']), acc)
+        record_leaves(lw, path, rec, acc)
         return
     if t.is_ptr():
         return  # pointers inside inputs are set up by the spec's own harness_setup
     acc.append((path, t))
+
+
+def record_leaves(lw, path, rec, acc):
+    is_union = rec.get('tagUsed') == 'union'
+    members = []   # list of leaf lists, one per member
+    for i, b in enumerate(rec.get('bases', []) or []):
+        sub = []
+        leaves(lw, path + ('.qx_base%d' % i if i else '.qx_base'), lw.ctype(b['type']), sub)
+        members.append(sub)
+    anon = [c for c in rec.get('inner', []) if c.get('kind') == 'CXXRecordDecl' and not c.get('name') and c.get('completeDefinition')]
+    for f in rec.get('inner', []):
+        if f.get('kind') != 'FieldDecl':
+            continue
+        sub = []
+        if f.get('name'):
+            leaves(lw, path + '.' + f['name'], lw.ctype(f['type']), sub)
+        elif anon:
+            record_leaves(lw, path, anon.pop(0), sub)   # C11 anonymous member: same path
+        members.append(sub)
+    if is_union:
+        best = max(members, key=lambda m: sum(lw.sizeof(t) for _, t in m)) if members else []
+        acc.extend(best)
+    else:
+        for m in members:
+            acc.extend(m)
 
 
 class HarnessGen:
@@ -220,6 +236,7 @@ class HarnessGen:
         objs = [(nm, t) for nm, t, isref in info['params'] if not (nm in bufs) and (isref or nm in refs or (t.is_ptr() and t.deref().is_record()))]
         # ---- native only: run the REAL function on clones first when the postcondition needs ghost code
         L.append('#ifdef QX_NATIVE')
+        L.append('  printf("QX-START\\n"); fflush(stdout);')
         rargs = []
         for nm, t, isref in info['params']:
             if nm in bufs:
@@ -347,8 +364,15 @@ def cxx_call(info, args):
     kind = info['kind']
     cargs = []
     start = 1 if info['is_method'] else 0
-    for (nm, t, isref), a in list(zip(ps, args))[start:]:
-        cargs.append('*' + a if isref else a)
+    cpp_ps = [p for p in node.get('inner', []) if p.get('kind') == 'ParmVarDecl']
+    for i, ((nm, t, isref), a) in enumerate(list(zip(ps, args))[start:]):
+        if isref:
+            cargs.append('*' + a)
+        elif not t.derivs and not t.is_record() and i < len(cpp_ps):
+            ct = cpp_ps[i]['type'].get('desugaredQualType') or cpp_ps[i]['type']['qualType']
+            cargs.append('(%s)(%s)' % (ct, a))
+        else:
+            cargs.append(a)
     if info['is_method']:
         leaf = node.get('name')
         if kind == 'CXXConstructorDecl':
@@ -369,10 +393,10 @@ def cxx_type(t, lw_types):
     return t
 
 
-def wrapper_cpp(lw, driver_path, wrap_fns, stub_fns):
+def wrapper_cpp(lw, driver_path, wrap_fns, stub_fns, ast=None):
     """C++ TU: includes the instantiation driver and exports each real function under its lowered C name;
     cut functions (QV::*) are defined to forward to the C stubs."""
-    L = ['#include "%s"' % driver_path, '#include <new>', 'using namespace Qentem;', '']
+    L = ['#include "%s"' % driver_path, '#include <new>', '#include <cstdlib>', 'using namespace Qentem;', '']
 
     def cxx_param(t, nm, info_node=None):
         # spell record types by their C++ qualified name
@@ -411,6 +435,9 @@ def wrapper_cpp(lw, driver_path, wrap_fns, stub_fns):
         rets = cxx_param(ret, '').strip()
         csig = ', '.join(cxx_param(t, nm) for nm, t, r in ps)
         L.append('extern "C" %s %s(%s);' % (rets, fn, csig or 'void'))
+        if not info['qualname'].startswith('QV::'):
+            # a cut callee that has a real body in the library: the native replay runs the real callee
+            continue
         if info['is_method']:
             cls = lw.ast.qualname(lw.class_of(node))
             mps = ps[1:]
@@ -426,6 +453,36 @@ def wrapper_cpp(lw, driver_path, wrap_fns, stub_fns):
                 rt, cls, node['name'], decl_ps, const, noex, '' if rt == 'void' else 'return', fn, fwd))
         else:
             raise LowerError('free-function stubs are not supported in native replay')
+    # every other member of the verification stub types gets an aborting definition so that the replay links
+    if ast is not None:
+        done = set(lw.fn_info[f]['mangled'] for f in stub_fns if lw.fn_info[f]['qualname'].startswith('QV::'))
+        seen = set()
+        for n in list(ast.by_id.values()):
+            if n.get('kind') != 'CXXMethodDecl' or n.get('isImplicit') or 'mangledName' not in n:
+                continue
+            if n['mangledName'] in done or n['mangledName'] in seen or n['mangledName'] in ast.fn_def:
+                continue
+            par = ast.parent.get(id(n))
+            if par is None or par.get('kind') not in ('CXXRecordDecl', 'ClassTemplateSpecializationDecl'):
+                continue
+            gp = ast.parent.get(id(par))
+            if par.get('kind') == 'CXXRecordDecl' and gp is not None and gp.get('kind') == 'ClassTemplateDecl':
+                continue
+            try:
+                cls = ast.qualname(par)
+            except LowerError:
+                continue
+            if not cls.startswith('QV::'):
+                continue
+            seen.add(n['mangledName'])
+            ft = n['type']['qualType']
+            const = ' const' if re.search(r'\) const', ft) else ''
+            noex = ' noexcept' if 'noexcept' in ft else ''
+            cpp_ps = [p for p in n.get('inner', []) if p.get('kind') == 'ParmVarDecl']
+            decl_ps = ', '.join('%s a%d' % (p['type']['qualType'], i) for i, p in enumerate(cpp_ps))
+            rt = lw.ret_type_str(n)
+            tmpl = 'template <> ' if par.get('kind') == 'ClassTemplateSpecializationDecl' else ''
+            L.append('%s%s %s::%s(%s)%s%s { std::abort(); }' % (tmpl, rt, cls, n['name'], decl_ps, const, noex))
     return '\n'.join(L) + '\n'
 
 
